@@ -195,11 +195,11 @@ HARNESSES = {"powtrace": h_powtrace, "hessenberg": h_hessenberg, "cpp_permanent"
 
 def instances(tier):
     out = [("powtrace", {"dim": d, "pow_max": p}) for d, p in ((2, 2), (2, 5), (3, 3), (3, 7), (4, 4), (4, 6))]
-    out += [("cpp_permanent", {"rows": list(r), "cols": list(c)}) for r, c in (((1, 1), (1, 1)), ((2, 1), (1, 2)), ((0, 2), (1, 1)), ((1, 1, 1), (1, 1, 1)), ((2, 0, 1), (1, 1, 1)), ((2, 2), (3, 1)), ((1, 2, 1), (2, 0, 2)))]
+    out += [("cpp_permanent", {"rows": list(r), "cols": list(c)}) for r, c in (((1, 1), (1, 1)), ((2, 1), (1, 2)), ((0, 2), (1, 1)), ((1, 1, 1), (1, 1, 1)), ((2, 0, 1), (1, 1, 1)), ((2, 2), (3, 1)), ((1, 2, 1), (2, 0, 2)), ((3, 2), (4, 1)), ((2, 2, 1), (1, 3, 1)), ((2, 1, 0, 2), (1, 1, 2, 1)))]
     out += [("cpp_permanent", {"rows": list(r), "cols": list(c), "kernel": "laplace"}) for r, c in (((1, 1), (2, 1)), ((2, 1), (2, 2)), ((1, 0, 1), (1, 1, 1)), ((2, 2), (3, 2)), ((0, 2, 1), (2, 1, 1)))]
     out += [("cpp_weights", {"total": 24}), ("cpp_weights", {"total": 40})]
     if tier == "thorough":
-        out += [("cpp_permanent", {"rows": list(r), "cols": list(c)}) for r, c in (((3, 2), (4, 1)), ((2, 2, 1), (1, 3, 1)), ((1, 1, 1, 1), (1, 1, 1, 1)), ((2, 1, 0, 2), (1, 1, 2, 1)))]
+        out += [("cpp_permanent", {"rows": list(r), "cols": list(c)}) for r, c in (((1, 1, 1, 1), (1, 1, 1, 1)), ((4, 2, 1), (2, 3, 2)), ((3, 3, 1), (2, 2, 3)))]
         out += [("cpp_weights", {"total": 48})]
     if tier == "thorough":
         out += [("powtrace", {"dim": 5, "pow_max": 7}), ("powtrace", {"dim": 6, "pow_max": 6})]
@@ -222,7 +222,7 @@ def run(rep, tier, seed, opts):
     rep.bounds = {"Hessenberg dim": "2..4 (6 thorough)", "powers": "up to 7",
                   "outside": "all C++ kernels (permanent, permanent_laplace, torontonian, loop torontonian, pfaffian, jax_perm): no LLVM-IR engine was built and the extensions cannot be rebuilt here; "
                              "the subset enumeration / repeated-edge compression drivers of plain_hafnian.py and loop_hafnian.py, loop corrections, float32 overloads, strided inputs"}
-    o = {"timeout_s": 60 if tier == "quick" else 300, "instance_timeout_s": 900, "seed": seed, "validation_points": 2}
+    o = {"timeout_s": 60 if tier == "quick" else 300, "instance_timeout_s": 900, "seed": seed, "validation_points": 2, "path_budget": 400, "som_blowup": True}
     for r in core.run_instances(__name__, inst, o, jobs=opts.get("jobs")):
         rep.add_instance_result(__name__, r)
     return rep.finish(level="other", explanation=EXPLANATION)
